@@ -1168,6 +1168,25 @@ def gen_modules(seedstr, n, illformed=False):
             mod['axs'] = mod['axs'] + [ax]
             mod['proofs'] = mod['proofs'] + [['dyn', ['ax', ax], d]]
             mod['pending_subst'] = which
+        if rng.random() < 0.15:
+            # the Quantifier axiom phi0[x1/x0] -> exists x0 . phi0 (and so a pending substitution) instantiated with a pattern
+            # under a binder: mu X_k / exists x_k for every small k, incl. the index of the plug's variable (mu X1 with plug x1
+            # is fine: a mu binds a SET variable; exists x1 would capture and is left to the D9c stream)
+            kk = rng.randrange(4)
+            body = rng.choice([['mu', kk, ['app', ['ev', 0], ['sv', kk]]], ['mu', kk, ['imp', ['sym', 's0'], ['app', ['sv', kk], ['ev', 0]]]],
+                               ['ex', rng.choice([0, 2, 3]), ['app', ['ev', 0], ['sym', 's1']]],
+                               ['mu', kk, ['ex', rng.choice([2, 3]), ['app', ['ev', 0], ['sv', kk]]]]])
+            mod['proofs'] = mod['proofs'] + [['dyn', ['q'], [[0, body]]]]
+            mod['quantifier_under_binder'] = True
+        if rng.random() < 0.12:
+            # the STATIC rule ProofExp.instantiate (pushes no plugs) as the very first step of the proof phase, i.e. on a
+            # modelled stack shorter than its delta: the toolkit must refuse (or the checker accept); with an empty delta it is fine
+            gq = Gen(rng)
+            c1, c2 = gq.pat(1, 'concrete'), gq.pat(1, 'schematic')
+            first = rng.choice([['inst', ['p1'], [[0, c1]]], ['inst', ['p1'], [[1, c2], [0, c1]]], ['inst', ['p2'], [[2, c1]]],
+                                ['inst', ['p1'], []], ['inst', ['p3'], [[0, c2]]], ['gen', ['inst', ['p1'], [[0, c1]]], 3]])
+            mod['proofs'] = [first] + mod['proofs']
+            mod['static_inst_first'] = True
         if len(mod['proofs']) >= 2 and rng.random() < 0.2:
             # proofs listed in a different order than the claims (the toolkit must refuse, or the checker must accept)
             n_ = len(mod['proofs'])
